@@ -62,8 +62,13 @@ def gen_doc1(rp):
     for n in range(rp.randint(0, 3)):
         if not states:
             break
-        child = p_c01.gen_chart(rp, dm, {"history": False, "par_p": 0.0}, max_states=4)
-        child.attrs["name"] = "kid%d" % n
+        if n > 0 and rp.random() < 0.35:
+            # the same machine invoked from a second place (byte-identical nested documents)
+            child = gen.from_xml(prev.xml())
+        else:
+            child = p_c01.gen_chart(rp, dm, {"history": False, "par_p": 0.0, "hist_p": 0.0}, max_states=4)
+            child.attrs["name"] = "kid%d" % n
+        prev = child
         inv = El("invoke", {"type": "scxml", "id": "inv%d" % n})
         inv.add(El("content", children=[child]))
         rp.choice(states).add(inv)
